@@ -137,9 +137,11 @@ def judge(ctx, gname, g, m, text, kind, skel, rng, meta=None):
         if exc is not None and re.search(r'="[^"\n]*(\[|\{(?!<))', wit.get("unparsed") or "") and any(
                 "[" in a or "{" in a for alts in g.values() for a in alts):
             return KF_BRACKET
-        if re.search(r"<start>", text) and ("forall <start> start" in (wit.get("unparsed") or "") or "exists <start> start" in (wit.get("unparsed") or "")):
-            return KF_START
         return None
+
+    def start_clash():
+        # mechanism repaired in the repository (fixed: f7df95c); named only so that a return of it is reported under its name
+        return KF_START if re.search(r"<start>", text) and ("forall <start> start" in (wit.get("unparsed") or "") or "exists <start> start" in (wit.get("unparsed") or "")) else None
     st, u = ctx.guarded(unparse_isla, f1, timeout=20)
     if st != "ok":
         return ctx.inconclusive("watchdog") if st == "watchdog" else ctx.violation(known(u), f"unparse_isla raises {type(u).__name__}: {str(u)[:80]}", wit)
@@ -148,17 +150,17 @@ def judge(ctx, gname, g, m, text, kind, skel, rng, meta=None):
     if st == "watchdog":
         return ctx.inconclusive("watchdog")
     if st == "exc":
-        return ctx.violation(known(f2), f"unparsed text does not parse: {type(f2).__name__}: {str(f2)[:80]}", wit)
+        return ctx.violation(known(f2) or start_clash(), f"unparsed text does not parse: {type(f2).__name__}: {str(f2)[:80]}", wit)
     if not (f1 == f2):
         key = known()
         if key is None:
             notes = set()
             if relaxed_equal(f1, f2, notes) and notes:
                 key = KF_ALPHA if "alpha" in notes and kind == "xpath" else KF_SMT_NEG if "smt" in notes else KF_MEXPR_SEG if notes == {"mexpr"} else None
-        return ctx.violation(key, "re-parsed constraint is not equal to the first one", wit)
+        return ctx.violation(key or start_clash(), "re-parsed constraint is not equal to the first one", wit)
     st, u2 = ctx.guarded(unparse_isla, f2, timeout=20)
     if st != "ok" or u2 != u:
-        return ctx.violation(known(), "unparsing the re-parsed constraint gives a different text", {**wit, "unparsed2": str(u2)[:300]})
+        return ctx.violation(known() or start_clash(), "unparsing the re-parsed constraint gives a different text", {**wit, "unparsed2": str(u2)[:300]})
     for _ in range(3):
         tl = m.random_tree(rng, budget=rng.choice([3, 8, 20]), eps_style="empty")
         t = to_dt(tl)
@@ -167,7 +169,7 @@ def judge(ctx, gname, g, m, text, kind, skel, rng, meta=None):
             continue
         ctx.count("verdict_comparisons")
         if a != b:
-            return ctx.violation(known(), f"verdicts differ: first {a}, re-parsed {b}", {**wit, "tree": tl})
+            return ctx.violation(known() or start_clash(), f"verdicts differ: first {a}, re-parsed {b}", {**wit, "tree": tl})
     ctx.count("roundtrips_judged")
     ctx.count("kind_" + kind)
     ctx.held((gname, kind, skel), sample={"text": text[:200], "unparsed": u[:200], "kind": kind})
